@@ -2,6 +2,7 @@ package props
 
 import (
 	"fmt"
+	"os"
 	"strconv"
 	"strings"
 	"time"
@@ -179,18 +180,18 @@ func crossChannelCleans() []explore.Finding {
 		for seq := uint64(1); seq <= 2; seq++ {
 			p := packettypes.NewPacket([]byte(fmt.Sprintf("%s-%d", ch.name, seq)), seq, ch.src, ch.dst, ch.relay, "tibcmock")
 			if err := base.SendMock(base.C(ch.src), p); err != nil {
-				panic(err)
+				return setUpRefused("cross-channel", fmt.Sprintf("send %s#%d", ch.name, seq), false, err.Error())
 			}
 			hops := route(p)
 			for i := 1; i < len(hops); i++ {
 				if r, err := base.RelayRecv(p, base.C(hops[i])); err != nil || !r.OK() {
-					panic(fmt.Sprint("cross-channel set-up: recv failed ", err, r.Log))
+					return setUpRefused("cross-channel", fmt.Sprintf("recv %s#%d@%s", ch.name, seq, hops[i]), true, fmt.Sprint(err, " ", r.Log))
 				}
 				recvs = append(recvs, sent{base.LastMsg, hops[i], fmt.Sprintf("%s#%d@%s", ch.name, seq, hops[i])})
 			}
 			for i := len(hops) - 2; i >= 0; i-- {
 				if r, err := base.RelayAck(p, mockAck, base.C(hops[i])); err != nil || !r.OK() {
-					panic(fmt.Sprint("cross-channel set-up: ack failed ", err, r.Log))
+					return setUpRefused("cross-channel", fmt.Sprintf("ack %s#%d@%s", ch.name, seq, hops[i]), false, fmt.Sprint(err, " ", r.Log))
 				}
 			}
 		}
@@ -255,6 +256,17 @@ func crossChannelCleans() []explore.Finding {
 	return fs
 }
 
+// setUpRefused turns a refused honest step during the set-up of a scripted scenario into a finding: a committed packet
+// the next hop refuses is a violation of C02's second sentence; a refused send or acknowledgement only means the script
+// cannot run (the graph explorations judge those steps).
+func setUpRefused(script, step string, isRecv bool, detail string) []explore.Finding {
+	fmt.Fprintf(os.Stderr, "[%s] set-up step refused: %s: %s\n", script, step, detail)
+	if !isRecv {
+		return nil
+	}
+	return []explore.Finding{{Property: "C02", Signature: "fresh-packet-refused:" + script, Detail: step + ": " + detail, Path: []string{script, step}}}
+}
+
 // CheckC10: cleanup.
 func modelsC10(tier string) ([]*PktModel, []int) {
 	props := map[string]bool{"C10": true}
@@ -281,7 +293,7 @@ func CheckC10(tier string) int {
 		"clean(N) is offered on the source for every N in 1..max+1 in every state; accepted cleans are judged against the ghost (which sequences were sent and acknowledged on the source); receive-clean messages without the source's clean point behind them are probes that must be rejected",
 		"in all descendant states every packet and acknowledgement at or below a clean point is re-submitted with a fresh proof and must be rejected",
 		"long channel (scripted): 12 packets sent and delivered on one channel, every set of at most two unacknowledged sequences, clean(N) for every N in 1..13 judged against the same rule (two-digit sequence numbers, where decimal keys sort differently from numbers)",
-	}, commonAssumptions...), append(longChannelCleans(tier), crossChannelCleans()...))
+	}, commonAssumptions...), onlyProperty("C10", append(longChannelCleans(tier), crossChannelCleans()...)))
 }
 
 func init() {
@@ -298,14 +310,14 @@ func longChannelCleans(tier string) []explore.Finding {
 	for i := uint64(1); i <= n; i++ {
 		p := packettypes.NewPacket([]byte(fmt.Sprintf("long-%d", i)), i, A, B, "", "tibcmock")
 		if err := base.SendMock(a, p); err != nil {
-			panic(err)
+			return setUpRefused("long-channel", fmt.Sprintf("send #%d", i), false, err.Error())
 		}
 		pkts = append(pkts, p)
 	}
 	var recvMsgs, ackMsgs []sdk.Msg
 	for _, p := range pkts {
 		if r, err := base.RelayRecv(p, b); err != nil || !r.OK() {
-			panic(fmt.Sprint("long channel set-up: recv failed ", err, r.Log))
+			return setUpRefused("long-channel", fmt.Sprintf("recv #%d", p.Sequence), true, fmt.Sprint(err, " ", r.Log))
 		}
 		recvMsgs = append(recvMsgs, base.LastMsg)
 	}
@@ -314,7 +326,7 @@ func longChannelCleans(tier string) []explore.Finding {
 	// the rule, and every original receive / acknowledgement message is replayed verbatim afterwards
 	for _, p := range pkts {
 		if r, err := base.RelayAck(p, []byte("mock acknowledgement"), a); err != nil || !r.OK() {
-			panic(fmt.Sprint("long channel set-up: ack failed ", err, r.Log))
+			return setUpRefused("long-channel", fmt.Sprintf("ack #%d", p.Sequence), false, fmt.Sprint(err, " ", r.Log))
 		}
 		ackMsgs = append(ackMsgs, base.LastMsg)
 	}
@@ -443,4 +455,14 @@ func longChannelCleans(tier string) []explore.Finding {
 	ExtraCoverage["long_channel"] = map[string]any{"packets": n, "unacknowledged_sets": len(subsets), "clean_attempts": attempts,
 		"two_stage_clean_plans": len(plans), "verbatim_replays_after_cleaning": len(plans) * 2 * n}
 	return append(fs, effects...)
+}
+
+func onlyProperty(prop string, fs []explore.Finding) []explore.Finding {
+	var out []explore.Finding
+	for _, f := range fs {
+		if f.Property == prop {
+			out = append(out, f)
+		}
+	}
+	return out
 }
